@@ -185,7 +185,7 @@ def run(ctx):
         shapes = [s for i, s in enumerate(shapes) if (i + ctx.seed) % 2 == 0]
     evaluate(ctx, shapes, res)
     res['scopes']['enumerated_shapes'] = len(shapes)
-    n = 60000 if ctx.deep else 8000
+    n = (400000 if ctx.tier == 'thorough' else 60000) if ctx.deep else 8000
     progs = [T.gen(rng, 4, tie_prone=(i % 3 == 0)) for i in range(n)]
     evaluate(ctx, progs, res)
     res['scopes']['generated'] = n
